@@ -394,6 +394,14 @@ macro_rules! podstr_call {
                 Err(_) => "err".to_string(),
             },
             "disp" => format!("x{}", hex(PodStr::<$n>::load(bytes).to_string().as_bytes())),
+            "asunchk" => {
+                // the unsafe accessor, called only when its contract (valid UTF-8) holds
+                let p = PodStr::<$n>::load(bytes);
+                match p.as_str() {
+                    Ok(_) => okhex(unsafe { p.as_str_unchecked() }.as_bytes()),
+                    Err(_) => "err".to_string(),
+                }
+            }
             "load" => {
                 let v = *PodStr::<$n>::load(bytes);
                 (PodStr::<$n>::load(bytemuck::bytes_of(&v)) == &v && bytemuck::bytes_of(&v) == &bytes[..]).to_string()
@@ -407,7 +415,7 @@ impl PodStrSut {
     pub fn parse(&self, l: &str) -> Option<Op> {
         let ws: Vec<&str> = l.split_whitespace().collect();
         let name = *ws.first()?;
-        const NAMES: &[&str] = &["from", "copy", "asstr", "disp", "load"];
+        const NAMES: &[&str] = &["from", "copy", "asstr", "disp", "load", "asunchk"];
         let n = NAMES.iter().find(|n| **n == name)?;
         let (args, blob) = Op::parse_args(&ws[1..]);
         Some(Op { name: n, args, blob })
@@ -440,7 +448,7 @@ impl Sut for PodStrSut {
         v
     }
     fn ops(&self, _state: &[u8]) -> Vec<Op> {
-        let mut v = vec![Op::new("asstr", &[]), Op::new("disp", &[]), Op::new("load", &[])];
+        let mut v = vec![Op::new("asstr", &[]), Op::new("asunchk", &[]), Op::new("disp", &[]), Op::new("load", &[])];
         for s in &self.strs {
             v.push(Op::with_blob("from", &[], s.as_bytes()));
             v.push(Op::with_blob("copy", &[], s.as_bytes()));
@@ -504,7 +512,7 @@ impl Sut for PodStrSut {
                     f.push(Finding { property: "C14", what: format!("`{}` gives bytes {:02x?}, expected the first min(len, N) bytes then zeros {:02x?}", op.text(), post, exp) });
                 }
             }
-            "asstr" => {
+            "asstr" | "asunchk" => {
                 let exp = match std::str::from_utf8(text) {
                     Ok(_) => okhex(text),
                     Err(_) => "err".to_string(),
